@@ -307,6 +307,7 @@ func (h *FHDR) UnmarshalBinary(uplink bool, data []byte) error {
 	fCntBytes := make([]byte, 4)
 	copy(fCntBytes, data[5:7])
 	h.FCnt = binary.LittleEndian.Uint32(fCntBytes)
+	h.FOpts = nil
 
 	if len(data) > 7 {
 		// copy the bytes, the FOpts must not share memory with data
